@@ -561,3 +561,36 @@ Example ex_machine_prefix :
   ser_machine (mkmachine 1000 4602678819172646912 0 0 []) =
   [251; 232; 3;  0; 0; 0; 0; 0; 0; 224; 63;  0;  0; 0; 0; 0; 0; 0; 0; 0;  0].
 Proof. vm_compute. reflexivity. Qed.
+
+(** The bytes produced by the real crate (bincode 1.3.3,
+    [DefaultOptions::new().with_limit(1 << 20).serialize]) for the Rust value
+    corresponding to [ex_machine] (obtained by running the Rust code). *)
+Definition ex_machine_rust_bytes : list N :=
+  [
+   251; 232; 3; 0; 0; 0; 0; 0; 0; 224; 63; 0; 0; 0; 0; 0; 0; 0; 0; 0; 2; 1; 1; 0; 1; 0; 0;
+   0; 0; 0; 0; 0; 0; 0; 0; 0; 0; 0; 0; 0; 36; 64; 0; 0; 0; 0; 0; 0; 0; 0; 0; 0; 0; 0; 0; 0;
+   0; 0; 0; 1; 0; 0; 0; 0; 1; 1; 1; 0; 0; 128; 63; 0; 0; 1; 2; 0; 0; 0; 0; 63; 252; 255;
+   255; 255; 255; 0; 0; 0; 63; 0; 0; 0; 0; 0; 0; 0; 0; 0; 1; 2; 1; 0; 0; 0; 0; 0; 0; 0; 0;
+   0; 0; 0; 0; 0; 0; 0; 0; 36; 64; 0; 0; 0; 0; 0; 0; 0; 0; 0; 0; 0; 0; 0; 0; 0; 0; 4; 251;
+   232; 3; 0; 0; 0; 0; 0; 0; 224; 63; 0; 0; 0; 0; 0; 0; 240; 63; 0; 0; 0; 0; 0; 0; 0; 0; 1;
+   0; 0; 0; 0; 0; 0; 0; 0; 0; 0; 0; 0; 0; 0; 0; 36; 64; 0; 0; 0; 0; 0; 0; 0; 0; 0; 0; 0; 0;
+   0; 0; 0; 0; 0; 1; 2; 1; 0; 0; 0; 0; 0; 0; 0; 0; 0; 0; 0; 0; 0; 0; 0; 36; 64; 0; 0; 0; 0;
+   0; 0; 0; 0; 0; 0; 0; 0; 0; 0; 0; 0; 1; 0; 0; 0; 0; 0; 0; 0; 0; 0; 0; 0; 0; 1; 1; 0; 0; 0;
+   128; 63].
+
+Example ex_machine_matches_rust : ser_machine ex_machine = ex_machine_rust_bytes.
+Proof. vm_compute. reflexivity. Qed.
+
+Example ex_machine_size : ser_size ex_machine = 254%nat.
+Proof. vm_compute. reflexivity. Qed.
+
+(* observed on the real crate as well: non-minimal variant index accepted,
+   unknown variant / bad Option tag rejected *)
+Example de_timer_nonminimal : de_timer [251; 2; 0] = Some (TAll, []).
+Proof. vm_compute. reflexivity. Qed.
+
+Example de_timer_unknown : de_timer [3] = None.
+Proof. vm_compute. reflexivity. Qed.
+
+Example de_option_bad_tag : de_option de_bool [2; 1] = None.
+Proof. vm_compute. reflexivity. Qed.
